@@ -139,7 +139,7 @@ func contractHasProp(c *FuncContract, p string) bool {
 			return true
 		}
 	}
-	for _, lists := range [][]*Clause{c.Requires, c.Ensures, c.Invariants, c.Steps, c.Effects, c.AtCall, c.AtSend} {
+	for _, lists := range [][]*Clause{c.Requires, c.Ensures, c.Invariants, c.Steps, c.Effects, c.AtCall, c.AtGo, c.AtSend} {
 		for _, cl := range lists {
 			for _, q := range cl.Props {
 				if q == p {
